@@ -84,3 +84,9 @@ def f07_string_factor_nodes(v, f):
 def f12c_bds(v, f):
     """BDs local score equals the recorded wrong formula (only possible when some parent configuration is unobserved)"""
     return bool((v.get("detail") or {}).get("f12c_model_match"))
+
+
+@predicate
+def f26_canonical_g(v, f):
+    """marginalised canonical form has the right K and h; its constant g is off by exactly 0.5*(h_j'K_jj h_j - h_j'K_jj^-1 h_j)"""
+    return bool((v.get("detail") or {}).get("f26_model_match"))
